@@ -147,10 +147,11 @@ class TextFileStorage(Storage[str]):
         """
         with self._storage_lock:
             for f in self._file_paths:
-                if f is not None:
+                if f is not None and os.path.exists(f):
                     os.remove(f)
 
-            self._file_paths[:] = []
+            # the process identifiers stay assigned (the paths are kept), so a process that stores again after the flush
+            # just creates its file anew
             self._index[:] = []
             self._stored_cnt.value = 0
             self._waiting_for.value = 0
